@@ -633,6 +633,15 @@ theorem C14_skip_prefix_on_resolved_name :
     Arc.Generated.C14.skipTestOnResolvedName = [true, true, true, true, true, true] := by
   decide
 
+/-- user text shaped like the FROM-mask placeholder next to an EXTRACT call: the validator (which never
+runs `MaskFromKeywordsInFunctionBodies`) sees an alias and an inert literal; the transform's
+`UnmaskFromKeywordsInFunctionBodies` (strings.NewReplacer over EVERY occurrence, not modelled) then turns the
+user's `__FROM_MASK_0__` into `FROM` in front of the string: a replacement scan -/
+theorem C14_from_mask_lookalike_witness :
+    let s := "SELECT EXTRACT(year FROM DATE '2024-01-01') AS y, canary __FROM_MASK_0__ '/r/secret/cpu/f.parquet'".toList
+    inK s [] = false ∧ validate s = .ok ∧ hasPlaceholderLookalike (s.length + 1) s = true ∧ shortCircuit strWorld s = false := by
+  decide +kernel
+
 /-! ## composition -/
 
 /-- **C14_partial** (the property on the decidable lexical class `inK`, compositional).
